@@ -245,6 +245,22 @@ def isinstance_term(ex, v, cls, p):
     return fresh(B, 'isinstance')
 
 
+def _mandatory_groups(pattern):
+    """numbers of the capture groups that take part in every match of `pattern` (top-level sequence, nested only inside mandatory groups)"""
+    import re
+    try: parsed = re._parser.parse(pattern)
+    except Exception: return set()
+    out = set()
+    def walk(seq):
+        for op, av in seq:
+            if str(op) == 'SUBPATTERN':
+                gid, _, _, sub = av
+                if gid: out.add(gid)
+                walk(sub)
+    walk(parsed)
+    return out
+
+
 def call_re(ex, fname, args, p, node):
     """re.fullmatch / match / search / split / findall on (pattern, str): total; results are pure functions of the arguments"""
     S = ex.S
@@ -256,6 +272,12 @@ def call_re(ex, fname, args, p, node):
     pid = z3.IntVal(lit_code(pat.lit)) if isinstance(pat, VStr) and pat.lit is not None else (pat.code if isinstance(pat, VStr) else z3.IntVal(lit_code(getattr(pat, 'name', 'pattern'))))
     if fname in ('fullmatch', 'match', 'search'):
         hit = S.app('RE_' + fname, [pid, args[1].code], B)
+        if ex.opts.get('match_objects') and isinstance(pat, VStr) and pat.lit is not None:
+            # a match object whose groups are functions of (pattern, subject): group(i) never raises for an existing group; groups that
+            # always take part in a match (not under ?, *, {0,n} or an alternative) are str, the others str-or-None
+            q = p.fork(hit)
+            return [(p.fork(z3.Not(hit)), NONE), (q, VRef(q.alloc({'__class__': 're:Match', 'pid': pid, 'subject': args[1].code, 'fname': fname, 'mandatory': _mandatory_groups(pat.lit),
+                                                                   'ngroups': __import__('re').compile(pat.lit).groups}), 're:Match'))]
         return [(p.fork(z3.Not(hit)), NONE), (p.fork(hit), VUnk('match object'))]
     if fname in ('split', 'findall'):
         q = p.fork(); return [(q, ex.new_symlist(q, 're_' + fname, min_len=1 if fname == 'split' else 0))]
@@ -321,6 +343,14 @@ def call_method(ex, m, o, args, kwargs, p, node, fr):
             if key is not None and key in cell.get('map', {}): return [(p, cell['map'][key])]
             if not cell.get('open') and key is not None: return [(p, args[1] if len(args) > 1 else NONE)]
             return [(p, VUnk('dict.get'))]
+    if isinstance(o, VRef) and o.cls == 're:Match' and m == 'group':
+        cell = p.cell(o.oid)
+        i = sx._const_int(args[0]) if args else 0
+        if i is None: raise sx.Unsupported('symbolic group index')
+        if not (0 <= i <= cell['ngroups']): return [(p, sx.Raised(VExc('IndexError', where=ln)))]
+        val = VStr(code=S.app('RE_GROUP_' + cell['fname'], [cell['pid'], cell['subject'], z3.IntVal(i)], I))
+        if i == 0 or i in cell['mandatory']: return [(p, val)]
+        return [(p, VOpt(S.app('RE_GROUP_NONE_' + cell['fname'], [cell['pid'], cell['subject'], z3.IntVal(i)], B), val))]
     if isinstance(o, sx.VGlobal) and m in ('findall', 'split', 'fullmatch', 'match', 'search'):
         return call_re(ex, m, [o] + list(args), p, node)
     if isinstance(o, VStr) and m in ('split', 'rsplit') and not (o.lit is not None and all(isinstance(a, VStr) and a.lit is not None for a in args)):
